@@ -1675,7 +1675,8 @@ class Interp:
             if nm == 'old':
                 self.old_mode += 1
                 try:
-                    return self.eval(node.args[0], env)
+                    v = self.eval(node.args[0], env)
+                    return self.frozen_old(v)
                 finally:
                     self.old_mode -= 1
             if nm in ('forall', 'exists'):
@@ -1703,7 +1704,7 @@ class Interp:
                     return b if isinstance(b, bool) else mk(b, 'bool')
                 try:
                     b = self.truth_term(self.eval(node.args[1], env))
-                except PyRaise:
+                except (PyRaise, TypeError):
                     b = False       # consequent undefined: the implication holds only where the antecedent is false
                 return mk(z3.Implies(a, z3.BoolVal(b) if isinstance(b, bool) else b), 'bool')
         fn = self.eval(node.func, env)
@@ -1924,6 +1925,26 @@ class Interp:
             return self.eval(node, senv)
         finally:
             self.spec_mode -= 1
+
+    def frozen_old(self, v):
+        """value of a mutable container as it was in the pre-state (an immutable copy)."""
+        snap = self.old_snapshot
+        if snap is None or id(v) not in snap:
+            return v
+        sv = snap[id(v)]
+        if isinstance(v, SymSeq):
+            return SymSeq(sv[0], sv[1], v.ek, v.cls)
+        if isinstance(v, PyList):
+            n = PyList(list(sv), v.cls)
+            n.is_deque = v.is_deque
+            return n
+        if isinstance(v, PyDict):
+            return PyDict(dict(sv))
+        if isinstance(v, SymSet):
+            return SymSet(sv) if z3.is_expr(sv) else PySet(sv)
+        if isinstance(v, PySet):
+            return PySet(set(sv)) if not z3.is_expr(sv) else SymSet(sv)
+        return v
 
     # isinstance ---------------------------------------------------------------
     def isinstance_(self, v, cls):
